@@ -127,7 +127,10 @@ def gen_model(rng: random.Random, *, max_samples: int = 8, max_perf: int = 4, ma
             while i < len(items) or not my_partials:
                 take = items[i:i + rng.randint(1, 4)]
                 i += max(1, len(take))
-                partials.append({"name": safe_name(rng, pn), "samples": take})
+                pt = {"name": safe_name(rng, pn), "samples": take}
+                if take and len(take) < 4 and rng.random() < 0.35:
+                    pt["gaps"] = sorted(rng.sample(range(4), len(take)))       # e.g. slots (-1, X, -1, Y)
+                partials.append(pt)
                 my_partials.append(len(partials) - 1)
                 if i >= len(items):
                     break
